@@ -28,6 +28,7 @@ package main
 // an argument (lazy initialisation), a write under a lock, a value whose dependencies are not visible.
 
 import (
+	"go/constant"
 	"fmt"
 	"go/token"
 	"go/types"
@@ -515,7 +516,20 @@ func stateRules(c *Ctx) {
 			if pos < 0 || pos >= len(as) {
 				return
 			}
-			if _, isConst := as[pos].(*ssa.Const); isConst {
+			if k, isConst := as[pos].(*ssa.Const); isConst {
+				// a constant layout that cuts a text operand to a fixed number of characters
+				if n := calleeName(ci); (n == "fmt.Sprintf" || n == "fmt.Fprintf") && k.Value != nil && k.Value.Kind() == constant.String && pos+1 < len(as) {
+					ops := variadicOperands(as[pos+1])
+					for _, vb := range precisionVerbs(constant.StringVal(k.Value)) {
+						x, have := ops[vb.operand]
+						if !have || !isTextType(x.Type()) {
+							continue
+						}
+						if d, _ := dependsOnArgs(tb.T(x)); d {
+							c.bad("STATE", "truncating-format:"+short1, i.Pos(), fmt.Sprintf("%s lays a text out with the verb %q: the precision cuts the text to %d characters, so a longer value is written shortened and cannot be read back", short1, vb.verb, vb.prec))
+						}
+					}
+				}
 				return
 			}
 			ft := tb.T(as[pos])
@@ -534,6 +548,25 @@ func stateRules(c *Ctx) {
 				as := ci.Common().Args
 				if k, isC := as[len(as)-1].(*ssa.Const); isC && k.Value != nil {
 					c.bad("STATE", "truncating-read:"+short1, i.Pos(), fmt.Sprintf("%s reads its input through %s with the constant limit %s: a longer input is cut off there without an error, so what is parsed is a prefix of what was written", short1, n, k.Value.String()))
+					return
+				}
+				// a limit worked out from the size of the compressed file, put on the inflated stream: the two
+				// lengths are unrelated (text of one repeated letter compresses a thousandfold)
+				lim := tb.T(as[len(as)-1])
+				src := tb.T(as[len(as)-2])
+				if n == "io.CopyN" {
+					src = tb.T(as[1])
+				}
+				inflates := src.contains(func(x *Term) bool {
+					return x.Op == "call" && (strings.HasPrefix(x.Name, "compress/") || strings.Contains(x.Name, "gzip.") || strings.Contains(x.Name, "zlib.") || strings.Contains(x.Name, "flate.")) && strings.Contains(x.Name, "NewReader")
+				})
+				bySize := lim.contains(func(x *Term) bool {
+					return x.Op == "call" && (strings.HasSuffix(x.Name, ".Size") || strings.HasSuffix(x.Name, "FileInfo).Size") || strings.HasSuffix(x.Name, "Size]"))
+				}) || strings.Contains(lim.String(), ".Size")
+				if inflates && bySize {
+					c.bad("STATE", "truncating-read:"+short1, i.Pos(), fmt.Sprintf("%s reads the inflated stream through %s with a limit worked out from the size of the compressed file (%s): how far a text inflates is not bounded by a ratio, so a well-formed file that compresses better than that is cut off without an error", short1, n, short(lim.String())))
+				} else {
+					c.undecided("STATE", "truncating-read:"+short1, i.Pos(), fmt.Sprintf("%s reads its input through %s with the limit %s; whether a well-formed input can be longer is not decided", short1, n, short(lim.String())))
 				}
 			}
 		})
@@ -578,6 +611,8 @@ func stateRules(c *Ctx) {
 		lastLineDropped(c, g, short1)
 		// ---- bytes of an argument re-labelled as a string without a copy
 		unsafeAlias(c, g, short1)
+		// ---- a buffered writer whose buffer is never written out
+		unflushedWriter(c, g, short1)
 	}
 	// parsers that link features to a local Sequence (shared by C01, C14, C15)
 	switch c.Prop {
@@ -1562,4 +1597,168 @@ func unsafeAlias(c *Ctx, g *ssa.Function, short1 string) {
 			c.bad("STATE", "unsafe-alias:"+short1, cv.Pos(), fmt.Sprintf("%s converts memory of an argument through unsafe.Pointer (a string made over the caller's bytes without a copy): what it returns changes when the caller re-uses the buffer", short1))
 		}
 	})
+}
+
+// unflushedWriter: a bufio.Writer made in g, written through, and never flushed nor handed to anything that
+// could flush it: whatever is still in its buffer when g returns (everything, for output below the buffer
+// size) never reaches the destination.
+func unflushedWriter(c *Ctx, g *ssa.Function, short1 string) {
+	eachInstr(g, func(i ssa.Instruction) {
+		mk, ok := i.(*ssa.Call)
+		if !ok {
+			return
+		}
+		if n := calleeName(mk); n != "bufio.NewWriter" && n != "bufio.NewWriterSize" {
+			return
+		}
+		flushed, escapes, writes := false, false, 0
+		seen := map[ssa.Value]bool{}
+		var follow func(v ssa.Value)
+		follow = func(v ssa.Value) {
+			if seen[v] || v.Referrers() == nil {
+				return
+			}
+			seen[v] = true
+			for _, r := range *v.Referrers() {
+				switch x := r.(type) {
+				case *ssa.DebugRef:
+				case *ssa.MakeInterface:
+					follow(x)
+				case *ssa.ChangeInterface:
+					follow(x)
+				case ssa.CallInstruction:
+					cm := x.Common()
+					n := calleeName(x)
+					switch {
+					case cm.IsInvoke() && cm.Value == v:
+						// a method called through an interface the writer was put into
+						switch cm.Method.Name() {
+						case "Flush":
+							flushed = true
+						case "Write", "WriteString", "WriteByte", "WriteRune":
+							writes++
+						default:
+							escapes = true
+						}
+					case strings.HasPrefix(n, "(*bufio.Writer)."):
+						switch strings.TrimPrefix(n, "(*bufio.Writer).") {
+						case "Flush":
+							flushed = true
+						case "Write", "WriteString", "WriteByte", "WriteRune", "ReadFrom":
+							writes++
+						case "Reset":
+							escapes = true
+						}
+					case n == "fmt.Fprintf" || n == "fmt.Fprint" || n == "fmt.Fprintln" || n == "io.WriteString" || n == "io.Copy" || n == "io.CopyN" || n == "io.CopyBuffer":
+						writes++
+					case strings.HasSuffix(n, ".WriteTo"):
+						writes++
+					default:
+						escapes = true // another function holds it now: it may flush
+					}
+				default:
+					escapes = true // stored, merged, returned, captured
+				}
+			}
+		}
+		follow(mk)
+		if escapes || flushed || writes == 0 {
+			return
+		}
+		c.bad("STATE", "unflushed-writer:"+short1, mk.Pos(), fmt.Sprintf("%s writes through a bufio.Writer that is never flushed and never leaves the function: what is still in its buffer when %s returns (all of it, for output smaller than the buffer) never reaches the destination", short1, short1))
+	})
+}
+
+
+type precVerb struct {
+	verb    string
+	operand int
+	prec    int
+}
+
+// precisionVerbs lists the %s / %v / %q verbs of a format that carry an explicit precision, with the index of
+// the operand each consumes (explicit argument indexes and '*' make the layout unreadable: nothing is listed).
+func precisionVerbs(f string) []precVerb {
+	var out []precVerb
+	op := 0
+	for i := 0; i < len(f); i++ {
+		if f[i] != '%' {
+			continue
+		}
+		j := i + 1
+		for j < len(f) && strings.IndexByte("+-# 0", f[j]) >= 0 {
+			j++
+		}
+		for j < len(f) && f[j] >= '0' && f[j] <= '9' {
+			j++
+		}
+		prec, hasPrec := 0, false
+		if j < len(f) && f[j] == '.' {
+			j++
+			hasPrec = true
+			for j < len(f) && f[j] >= '0' && f[j] <= '9' {
+				prec = prec*10 + int(f[j]-'0')
+				j++
+			}
+		}
+		if j >= len(f) {
+			break
+		}
+		switch f[j] {
+		case '%':
+		case '[', '*':
+			return nil
+		default:
+			if hasPrec && (f[j] == 's' || f[j] == 'v' || f[j] == 'q') {
+				out = append(out, precVerb{f[i : j+1], op, prec})
+			}
+			op++
+		}
+		i = j
+	}
+	return out
+}
+
+// variadicOperands: the values packed into the ...any slice of a call, by position.
+func variadicOperands(v ssa.Value) map[int]ssa.Value {
+	out := map[int]ssa.Value{}
+	sl, ok := v.(*ssa.Slice)
+	if !ok {
+		return out
+	}
+	al, ok := sl.X.(*ssa.Alloc)
+	if !ok || al.Referrers() == nil {
+		return out
+	}
+	for _, r := range *al.Referrers() {
+		ia, ok := r.(*ssa.IndexAddr)
+		if !ok || ia.Referrers() == nil {
+			continue
+		}
+		k, isC := ia.Index.(*ssa.Const)
+		if !isC {
+			continue
+		}
+		for _, r2 := range *ia.Referrers() {
+			if st, isSt := r2.(*ssa.Store); isSt && st.Addr == ssa.Value(ia) {
+				x := st.Val
+				if mi, isMI := x.(*ssa.MakeInterface); isMI {
+					x = mi.X
+				}
+				out[int(k.Int64())] = x
+			}
+		}
+	}
+	return out
+}
+
+func isTextType(t types.Type) bool {
+	switch u := t.Underlying().(type) {
+	case *types.Basic:
+		return u.Info()&types.IsString != 0
+	case *types.Slice:
+		b, ok := u.Elem().Underlying().(*types.Basic)
+		return ok && b.Kind() == types.Byte
+	}
+	return false
 }
